@@ -378,6 +378,10 @@ class C06(Prop):
                                    "free 0", "free 2", "free 3"])
         mk("errors-lpc", "lpc", ["newarr 0 2", "newmap 1", "newobj 0", "mset 1 0 0", "err 0 1", "efun 10 0 1",
                                  "efun 11 0 1", "err 1 0", "free 0", "free 1", "dest 0", "cleanup", "drop 0"])
+        # repaired defects: copy() beyond the nesting limit leaked the partial copy; copy() of a class miscounted arrays
+        mk("copy-too-deep-lpc", "lpc", ["newarr 0 2", "newmap 1", "mset 1 0 0", "aset 0 0 1", "efun 1 0 1", "efun 1 1 0",
+                                        "aset 0 0 5", "free 0", "free 1"])
+        mk("copy-class-lpc", "lpc", ["newcls 0", "newarr 1 2", "aset 0 1 1", "efun 1 0 1", "efun 1 0 1", "free 0", "free 1"])
         mk("efuns-lpc", "lpc", ["newarr 0 3", "newmap 1", "mset 1 0 0", "aset 0 0 1"] +
            ["efun %d %d %d" % (f, f % 2, (f + 1) % 2) for f in range(NEFUN)] + ["free 0", "free 1"])
         return B
